@@ -82,6 +82,7 @@ pub fn poll(sim: &Sim, who: &str, rx: &mut AnyLink, wire: &WireRef) -> PollOut {
     let live_before = alloc::sut_live();
     alloc::mark();
     let res = sut(|| rx.try_get_packet());
+    wire.borrow_mut().end_poll();
     let peak = alloc::sut_peak();
     let max_single = alloc::sut_max_single();
     let (cursor_after, frames_after) = {
